@@ -85,6 +85,11 @@ def verify_function(c, variant=None, vname=''):
                 c.check_exit(ip, a, old, kind, res)
             else:
                 check_post(ip, c, a, old, kind, res)
+            if not st.feasible():
+                # the path turned out to be infeasible after its last branch (e.g. a loop invariant
+                # assumed at a cut contradicts the state the loop was entered with)
+                st.obls = [o for o in st.obls if False]
+                return PathResult('cut', 'infeasible at end')
             # vacuity guard: the assumptions of a completed path must be satisfiable, i.e. the
             # obligation `False` must NOT be provable here
             st.obls.append(Obligation('canary', [f for f in list(st.pc) + list(st.hyps) if f.get_id() not in st.goal_ids],
@@ -193,6 +198,22 @@ def split_hyps(fs):
     return qf, qs
 
 
+def _int_consts(fs):
+    seen, out, stack = set(), [], list(fs)
+    while stack:
+        t = stack.pop()
+        if t.get_id() in seen:
+            continue
+        seen.add(t.get_id())
+        if z3.is_const(t) and t.decl().kind() == z3.Z3_OP_UNINTERPRETED and z3.is_int(t):
+            out.append(t)
+        if z3.is_quantifier(t):
+            stack.append(t.body())
+        else:
+            stack.extend(t.children())
+    return out
+
+
 def instantiate(q, K):
     """ground instances of a universal hypothesis at indices 0..K-1 (all its variables)"""
     if not (z3.is_quantifier(q) and q.is_forall()):
@@ -221,6 +242,12 @@ def refute_bounded(o, timeout_ms, K=132):
     s = z3.Solver()
     s.set('timeout', timeout_ms)
     s.add(*qf)
+    # soundness of the instantiation: every byte-string length is kept below K/4, so that every
+    # index into a concatenation of up to four of them is among the instantiated ones
+    L = K // 4 - 1
+    for c in _int_consts(list(o.pc) + [o.goal]):
+        if c.decl().name().endswith('.len'):
+            s.add(c <= L)
     for q in qs:
         inst = instantiate(q, K)
         if inst is None:
@@ -250,7 +277,7 @@ def discharge(o, timeout_ms=QUICK_TIMEOUT_MS, second_opinion=False):
     o.backend = 'z3-%s' % z3.get_version_string()
     if r == z3.unknown:
         # a counter-model once the quantified hypotheses are instantiated?  (fast, tried first)
-        m = refute_bounded(o, min(timeout_ms, 10000))
+        m = refute_bounded(o, min(timeout_ms, 8000))
         if m is not None:
             o.verdict, o.model = 'refuted', m
             o.backend += ' (counter-model under bounded instantiation of quantified hypotheses)'
